@@ -30,6 +30,18 @@ def run(tier, seed):
         vlib.drive(bindir, "keygen", sets=s, seed=seed, nfull=nfull, nlite=nlite, seeds=seeds, out=chk.workdir)
         traces[s] = os.path.join(chk.workdir, "keygen_%d.ndjson" % s)
     n, mism = common.validate_f(chk, traces, nproc=12, key_of=lambda m: "keygen:" + m["ev"])
+    # rare keys (t leaves [0,q) before the final reduction) found by search, and the key-generation samplers at scale
+    sw = os.path.join(chk.workdir, "sw")
+    from concurrent.futures import ThreadPoolExecutor
+    rel = vlib.build_harness("release")
+    nedge, nsamp = (60000, 30000) if tier == "quick" else (1500000, 600000)
+    with ThreadPoolExecutor(max_workers=3) as ex:
+        list(ex.map(lambda s: vlib.drive(rel, "sweeps", sets=s, seed=seed, nkeys=0, nedge=nedge, nedgefull=1 if tier == "quick" else 4,
+                                         nsamplers=nsamp, nrare=1 if tier == "quick" else 4, out=sw, timeout=7200), (44, 65, 87)))
+    n2, _ = common.validate_f(chk, {s: os.path.join(sw, "sweeps_%d.ndjson" % s) for s in (44, 65, 87)}, nproc=9, chunks_per_set=3,
+                              key_of=lambda m: "keygen-rare:" + m["event"].get("fn", m["ev"]))
+    n += n2
+    chk.leg("rare-event search (own arithmetic selects, specification judges)", edge_seeds_searched_per_set=nedge, sampler_cases_per_set=nsamp * 12)
     chk.leg("trace validation (Layer F judge)", events=n, full_recomputations_per_set=nfull + nacvp,
             partial_recomputations_per_set=nlite + 2, entry_points=["keygen_from_seed", "try_keygen_with_rng"])
     chk.cov["exhaustive"] = False
